@@ -42,7 +42,7 @@ REACH = {
               "container_reread": 1000, "fresh_process_rereads": 100},
     "thorough": {"forms_compared": 500000},
 }
-OPS = ["binary", "container", "json", "validate", "pcf", "fingerprint", "generate", "resolve", "named_reads"]
+OPS = ["binary", "container", "json", "validate", "pcf", "fingerprint", "generate", "resolve", "named_reads", "tuple_data"]
 
 
 def _rec(name, ns, field, ftype="double", default=0.0):
@@ -95,6 +95,20 @@ TARGETED = [
         {"name": "trump", "type": "Suit"},
         {"name": "rest", "type": {"type": "array", "items": "Card"}}]},
      [{"top": {"suit": "H", "rank": 3}, "trump": "S", "rest": [{"suit": "S", "rank": 1}]}]),
+    # a top level of the kind "error" (a record in everything but the keyword) whose field types can be parsed separately
+    ({"type": "error", "name": "Failure", "namespace": "rpc", "fields": [
+        {"name": "code", "type": {"type": "enum", "name": "Code", "symbols": ["E1", "E2"]}},
+        {"name": "where", "type": {"type": "record", "name": "Where", "fields": [{"name": "line", "type": "int"}, {"name": "c", "type": "Code"}]}},
+        {"name": "also", "type": ["null", "rpc.Where"], "default": None}]},
+     [{"code": "E2", "where": {"line": 3, "c": "E1"}}, {"code": "E1", "where": {"line": 0, "c": "E2"}, "also": {"line": 1, "c": "E1"}}]),
+    # two-element sequences as union values inside a type that only the piecewise form reaches by name
+    # (handed over as tuples with the tuple notation switched off, see tuple_data)
+    ({"type": "record", "name": "Doc", "namespace": "t", "fields": [
+        {"name": "head", "type": {"type": "record", "name": "Span", "fields": [
+            {"name": "range", "type": ["null", {"type": "array", "items": "int"}]},
+            {"name": "tags", "type": {"type": "map", "values": ["string", {"type": "array", "items": "string"}]}}]}},
+        {"name": "n", "type": "int", "default": 0}]},
+     [{"head": {"range": [3, 4], "tags": {"k": ["a", "b"], "l": "s"}}}, {"head": {"range": None, "tags": {"m": ["x", "y"]}}, "n": 2}]),
 ]
 
 
@@ -115,10 +129,10 @@ def named_defs(js):
                 walk(b, ns, path + (i,))
         elif isinstance(n, dict):
             t = n.get("type")
-            if t in ("record", "enum", "fixed"):
+            if t in ("record", "error", "enum", "fixed"):
                 space, full = split_name(n, ns)
                 out[full] = (n, ns, path)
-                if t == "record":
+                if t in ("record", "error"):
                     for i, f in enumerate(n.get("fields", [])):
                         walk(f["type"], space, path + ("fields", i, "type"))
             elif t == "array":
@@ -143,10 +157,10 @@ def refs_in(defn, ns):
                 walk(b, ns)
         elif isinstance(n, dict):
             t = n.get("type")
-            if t in ("record", "enum", "fixed"):
+            if t in ("record", "error", "enum", "fixed"):
                 space, full = split_name(n, ns)
                 inner.add(full)
-                if t == "record":
+                if t in ("record", "error"):
                     for f in n.get("fields", []):
                         walk(f["type"], space)
             elif t == "array":
@@ -321,6 +335,23 @@ def run_ops(fa, schema, data, seed, rereads, skip_generate=False, raw=None):
         return res
 
     out["named_reads"] = obs(named_reads)
+
+    def tuple_data():
+        # sequences given as tuples with the tuple notation switched off: the option reaches
+        # every depth whichever form the schema has
+        res = []
+        for d in data:
+            t = _tuplify(d)
+            res.append(fa.validate(t, schema, raise_errors=False, disable_tuple_notation=True))
+            b = io.BytesIO()
+            st, v = guard(fa.schemaless_writer, b, schema, t, disable_tuple_notation=True)
+            res.append(type(v).__name__ if st == "exc" else b.getvalue())
+            b = io.BytesIO()
+            st, v = guard(fa.writer, b, schema, [t], validator=True, disable_tuple_notation=True, sync_marker=b"\x06" * 16)
+            res.append(type(v).__name__ if st == "exc" else list(fa.reader(io.BytesIO(b.getvalue()))))
+        return res
+
+    out["tuple_data"] = obs(tuple_data)
     out["validate"] = obs(lambda: [fa.validate(d, schema, raise_errors=False) for d in data] + [fa.validate(object, schema, raise_errors=False)])
     out["pcf"] = obs(lambda: to_parsing_canonical_form(schema))
     out["fingerprint"] = obs(lambda: fingerprint(to_parsing_canonical_form(schema), "CRC-64-AVRO"))
@@ -334,6 +365,16 @@ def run_ops(fa, schema, data, seed, rereads, skip_generate=False, raw=None):
     # tens of seconds before it blows the stack: not exercised here
     out["generate"] = ("ok", "skipped: recursive schema") if skip_generate else obs(gen)
     return out
+
+
+def _tuplify(d):
+    if isinstance(d, list):
+        return tuple(_tuplify(x) for x in d)
+    if isinstance(d, dict):
+        return {k: _tuplify(v) for k, v in d.items()}
+    if type(d) is tuple:
+        return tuple(_tuplify(x) for x in d)
+    return d
 
 
 import re as _re
@@ -525,6 +566,11 @@ def run_shard(spec):
                         dict(size_budget=30, big=0.0, mappings=0.0))
         if RC.raw_under_logical(case["node"], case["datum"]):
             continue
+        if rng.random() < 0.1 and "record" in repr(case["schema"]):
+            from ..gen.schema import errorize
+            case["schema"] = errorize(case["schema"], rng)
+            case["node"], case["env"] = RS.build(case["schema"])
+            sh.count("error_kind_schemas")
         case["data"] = [case["datum"]]
         sh.feat(case["features"])
         vs = sh.run_case(one_case, sh, fa, rng, case, reread_log) or []
